@@ -25,13 +25,27 @@ type c02Case struct {
 	B       bool   `json:"b"`       // header encoder B (message encoding base64) instead of Q
 	Setter2 int    `json:"setter2"` // -1 = none
 	Value2  []byte `json:"value2,omitempty"`
+	// Late (file / part setters only): the message is first built with a benign value and rendered once; the value
+	// is then applied to the existing File / Part objects (options called on the *File, Part setters) and the message
+	// is rendered again — that second rendering is the one judged (structure only: whether a late option takes
+	// effect at all is not this property's business)
+	Late bool `json:"late,omitempty"`
 }
 
 var c02Setters = []string{"subject", "gen-header", "from-name", "to-name", "cc-name", "replyto-name", "message-id", "organization", "user-agent",
 	"attachment-name", "embed-name", "file-description", "part-description", "content-id", "mdn-name", "mdn-add-name"}
 
 // c02Apply builds the message of the given shape and applies the setter(s). It returns the first setter error.
-func c02Build(shape int, b bool, sets [][2]interface{}) (*mail.Msg, error) {
+func c02Build(shape int, b bool, sets [][2]interface{}, late bool) (*mail.Msg, error) {
+	lateSets := sets
+	if late {
+		// first the benign state, rendered once
+		var bs [][2]interface{}
+		for _, x := range sets {
+			bs = append(bs, [2]interface{}{x[0], []byte("benign first value")})
+		}
+		sets = bs
+	}
 	enc := mail.EncodingQP
 	if b {
 		enc = mail.EncodingB64
@@ -129,6 +143,40 @@ func c02Build(shape int, b bool, sets [][2]interface{}) (*mail.Msg, error) {
 		}
 		m.SetAttachments([]*mail.File{att})
 		m.SetEmbeds([]*mail.File{emb})
+	}
+	if late {
+		_, _ = m.WriteTo(io.Discard)
+		lval := func(id int) (string, bool) {
+			for _, s := range lateSets {
+				if s[0].(int) == id {
+					return string(s[1].([]byte)), true
+				}
+			}
+			return "", false
+		}
+		for _, f := range append(append([]*mail.File{}, m.GetAttachments()...), m.GetEmbeds()...) {
+			if v, ok := lval(11); ok {
+				mail.WithFileDescription(v)(f)
+			}
+		}
+		for _, f := range m.GetAttachments() {
+			if v, ok := lval(9); ok {
+				mail.WithFileName(v)(f)
+			}
+		}
+		for _, f := range m.GetEmbeds() {
+			if v, ok := lval(10); ok {
+				mail.WithFileName(v)(f)
+			}
+			if v, ok := lval(13); ok {
+				mail.WithFileContentID(v)(f)
+			}
+		}
+		if v, ok := lval(12); ok {
+			for _, p := range m.GetParts() {
+				p.SetDescription(v)
+			}
+		}
 	}
 	return m, err
 }
@@ -265,7 +313,13 @@ func c02Exec(r *vf.Run, k c02Case) []finding {
 		}
 		return fs
 	}
-	return c02ExecOne(r, k)
+	fs := c02ExecOne(r, k)
+	if k.Late {
+		for i := range fs {
+			fs[i].key += "/applied-after-a-first-rendering"
+		}
+	}
+	return fs
 }
 
 func c02ExecOne(r *vf.Run, k c02Case) []finding {
@@ -283,7 +337,7 @@ func c02ExecOne(r *vf.Run, k c02Case) []finding {
 		var serr, werr error
 		pan, pw := vf.Guard(func() {
 			var m *mail.Msg
-			m, serr = c02Build(k.Shape, k.B, s)
+			m, serr = c02Build(k.Shape, k.B, s, k.Late)
 			if serr == nil {
 				_, werr = m.WriteTo(&buf)
 			}
@@ -377,7 +431,7 @@ func c02ExecOne(r *vf.Run, k c02Case) []finding {
 			}
 		}
 	}
-	if len(out) > 0 || k.Setter2 >= 0 {
+	if len(out) > 0 || k.Setter2 >= 0 || k.Late {
 		return out
 	}
 	// value round trip
@@ -547,7 +601,7 @@ func init() {
 	vf.Register(&vf.Check{
 		ID: "C02", Title: "no caller-supplied text can alter the header block",
 		Run: func(r *vf.Run) {
-			r.SetRule("16 text-accepting setters (subject, generic header, From/To/Cc/Reply-To and Disposition-Notification-To display names, message-id, organisation, user-agent, attachment and embed file names, file and part descriptions, content-id) × values {every byte 0..255 at start/middle/end of a carrier; all 2-grams (thorough: 3-grams) over 16 dangerous symbols CR LF NUL TAB SP \" \\ < > : ; = ? 0x80 0xFF ü; lengths 0,1,74..79,200,1000; classic injection payloads} × header encoder {Q,B} × shape {single part, alternative, mixed+related}, alone and (2-grams) in pairs of setters; oracle is differential: every header section must have exactly the field names of the same message built with a benign value, bodies unchanged, and the value must decode back (RFC 2047, WSP-normalised; file names after the documented '_' replacement) unless the setter returned an error; distinct by case tuple")
+			r.SetRule("16 text-accepting setters (subject, generic header, From/To/Cc/Reply-To and Disposition-Notification-To display names, message-id, organisation, user-agent, attachment and embed file names, file and part descriptions, content-id) × values {every byte 0..255 at start/middle/end of a carrier; all 2-grams (thorough: 3-grams) over 16 dangerous symbols CR LF NUL TAB SP \" \\ < > : ; = ? 0x80 0xFF ü; lengths 0,1,74..79,200,1000; classic injection payloads} × header encoder {Q,B} × shape {single part, alternative, mixed+related}, alone, (2-grams) in pairs of setters, and — for the file and part attributes — applied to the existing File / Part objects after a first rendering (second rendering judged); oracle is differential: every header section must have exactly the field names of the same message built with a benign value, bodies unchanged, and the value must decode back (RFC 2047, WSP-normalised; file names after the documented '_' replacement) unless the setter returned an error; distinct by case tuple")
 			r.Assume("*Preformatted setters are raw by contract and excluded", "header names, content types and charsets are typed constants, not free text",
 				"message-id / content-id values are only compared when they are printable ASCII without blanks and angle brackets")
 			vals := c02Values(r.Thorough)
@@ -563,6 +617,15 @@ func init() {
 							cases = append(cases, c02Case{Setter: s, Value: v, Shape: shape, B: b, Setter2: -1})
 						}
 					}
+				}
+			}
+			// late application: file / part attributes changed on the existing objects after a first rendering
+			for _, s := range []int{9, 10, 11, 12, 13} {
+				for vi, v := range vals {
+					if !r.Thorough && vi >= 768 && vi%4 != s%4 {
+						continue
+					}
+					cases = append(cases, c02Case{Setter: s, Value: v, Shape: 2, B: vi%2 == 0, Setter2: -1, Late: true})
 				}
 			}
 			// pairs of setters with the 2-symbol values
